@@ -21,7 +21,7 @@ VERIF = core.VERIF
 
 
 def write_replay(run, res, decoded, which):
-    d = os.path.join(VERIF, "replays", run.prop)
+    d = os.path.join(VERIF if core.REPO == "/repo" else os.environ.get("VERIF_OUT", "/var/tmp/verif-seed-out"), "replays", run.prop)
     os.makedirs(d, exist_ok=True)
     path = os.path.join(d, "%s.replay" % res.h.name)
     m = res.h.meta
@@ -31,7 +31,10 @@ def write_replay(run, res, decoded, which):
         f.write("check=%s\n" % which)
         f.write("template=%s\n" % m.get("replay_template", m["template"]))
         f.write("kind=%s\n" % m.get("kind", "auto"))
-        f.write("case=%s\n" % res.h.case.line())
+        if res.h.case is not None:
+            f.write("case=%s\n" % res.h.case.line())
+        else:
+            f.write("case=unit std 0 0 default 1 both 61\n")
         fixed = m.get("fixed_inputs", {})
         for k, v in list(fixed.items()) + list(decoded.items()):
             f.write("%s=%s\n" % (k, v))
@@ -64,7 +67,8 @@ def main():
     seed = int(os.environ.get("VERIF_SEED", "0") or 0)
     jobs = int(os.environ.get("VERIF_JOBS", "12"))
     run = Run(prop, tier, seed)
-    ev_path = os.path.join(VERIF, "evidence", "%s.json" % prop)
+    out_root = VERIF if core.REPO == "/repo" else os.environ.get("VERIF_OUT", "/var/tmp/verif-seed-out")
+    ev_path = os.path.join(out_root, "evidence", "%s.json" % prop)
     os.makedirs(os.path.dirname(ev_path), exist_ok=True)
     exit_code = 2
     evidence = {
@@ -107,7 +111,7 @@ def main():
                         reproduced = True
                         hit = None
                         for k in known:
-                            if k.get("case_patterns") == [p.decode("latin1") for p in res.h.case.pats] \
+                            if res.h.case is not None and k.get("case_patterns") == [p.decode("latin1") for p in res.h.case.pats] \
                                     and k.get("template") == res.h.meta["template"] \
                                     and k.get("match_kind") == res.h.case.mk:
                                 hit = k
